@@ -152,3 +152,85 @@ func H_C09_positions() {
 		vAssert("map-entry", has && x == y)
 	}
 }
+
+type ZBlobs struct {
+	A []byte
+	B []byte
+	P *ZInner
+	Q *ZInner
+	S string
+	T string
+}
+
+// H_C09_repeated: the very same byte slice (one backing array) or string at several places of one message - two
+// struct fields, two list elements, list element and map value - with a shared object after it: every occurrence
+// comes back with the full content (binaries and strings are values, never back-references), and the shared
+// object behind them is still shared.
+func H_C09_repeated() {
+	n := 1 + vChoice("len", 3)
+	b := vBytes("b", n)
+	s := string([]rune{vScalar("s"), 'x'})
+	p := &ZInner{N: 7, S: s}
+	tm, nm := vExtractAll(&ZBlobs{P: &ZInner{}}, []int32{})
+	var v interface{}
+	where := vChoice("where", 4)
+	switch where {
+	case 0:
+		v = &ZBlobs{A: b, B: b, P: p, Q: p, S: s, T: s}
+	case 1:
+		v = []interface{}{b, b, p, p, s, s}
+	case 2:
+		v = []interface{}{b, map[string]interface{}{"k": b}, b[:n], p, p}
+	case 3: // a prefix of the same array is a different value
+		v = []interface{}{b, b[:n-1], b, p, p}
+	}
+	bs, err := ToBytes(v, nm)
+	vAssert("encode-noerr", err == nil)
+	av, cnt, ps := refParse(bs)
+	vAssert("wire-wellformed", ps.err == "" && cnt == len(bs) && av != nil)
+	out, err := ToObject(bs, tm)
+	vAssert("decode-noerr", err == nil)
+	switch where {
+	case 0:
+		g, ok := out.(*ZBlobs)
+		vAssert("type", ok && g != nil)
+		vAssert("both-binaries", vAnd(eqBytes(g.A, b), eqBytes(g.B, b)))
+		vAssert("both-strings", g.S == s && g.T == s)
+		vAssert("object-still-shared", g.P != nil && g.P == g.Q && g.P.S == s)
+	case 1:
+		l, ok := out.([]interface{})
+		vAssert("type", ok && len(l) == 6)
+		b0, ok0 := l[0].([]byte)
+		b1, ok1 := l[1].([]byte)
+		vAssert("both-binaries", ok0 && ok1 && vAnd(eqBytes(b0, b), eqBytes(b1, b)))
+		p2, ok2 := l[2].(*ZInner)
+		p3, ok3 := l[3].(*ZInner)
+		vAssert("object-still-shared", ok2 && ok3 && p2 != nil && p2 == p3 && p2.S == s)
+		s4, ok4 := l[4].(string)
+		s5, ok5 := l[5].(string)
+		vAssert("both-strings", ok4 && ok5 && s4 == s && s5 == s)
+	case 2:
+		l, ok := out.([]interface{})
+		vAssert("type", ok && len(l) == 5)
+		b0, ok0 := l[0].([]byte)
+		b2, ok2 := l[2].([]byte)
+		vAssert("both-binaries", ok0 && ok2 && vAnd(eqBytes(b0, b), eqBytes(b2, b)))
+		m, okm := l[1].(map[interface{}]interface{})
+		vAssert("map", okm && len(m) == 1)
+		bm, okb := m["k"].([]byte)
+		vAssert("map-value-binary", okb && eqBytes(bm, b))
+		p3, ok3 := l[3].(*ZInner)
+		p4, ok4 := l[4].(*ZInner)
+		vAssert("object-still-shared", ok3 && ok4 && p3 != nil && p3 == p4)
+	case 3:
+		l, ok := out.([]interface{})
+		vAssert("type", ok && len(l) == 5)
+		b0, ok0 := l[0].([]byte)
+		b1, ok1 := l[1].([]byte)
+		b2, ok2 := l[2].([]byte)
+		vAssert("binaries", ok0 && ok1 && ok2 && vAnd(eqBytes(b0, b), vAnd(eqBytes(b1, b[:n-1]), eqBytes(b2, b))))
+		p3, ok3 := l[3].(*ZInner)
+		p4, ok4 := l[4].(*ZInner)
+		vAssert("object-still-shared", ok3 && ok4 && p3 != nil && p3 == p4)
+	}
+}
